@@ -586,3 +586,32 @@ def A_per_domain(coqname):
             '  let domain_mask := (one_hot_b domain_id num_domains) in\n'
             '  (map (fun m_ : bool => if m_ then base_stat else base_zero) domain_mask).')
   return emit
+
+
+def A_no_hidden_inputs(allowed=()):
+  """Recogniser (fail-closed): the module does not call hash(), id(), anything of `time`, `uuid`, `random`,
+  `np.random` / `numpy.random`, nor read `os.environ`, outside the functions named in `allowed` (qualified names)."""
+  def emit(tree):
+    bad = []
+
+    def walk(node, qual):
+      for ch in ast.iter_child_nodes(node):
+        q = qual
+        if isinstance(ch, (ast.FunctionDef, ast.ClassDef)):
+          q = (qual + '.' if qual else '') + ch.name
+        if q not in allowed:
+          if isinstance(ch, ast.Call) and isinstance(ch.func, ast.Name) and ch.func.id in ('hash', 'id'):
+            bad.append(f'{ch.func.id}() in {q or "<module>"}')
+          if isinstance(ch, ast.Attribute):
+            try:
+              d = dotted(ch)
+            except Unsupported:
+              d = ''
+            if d.split('.')[0] in ('time', 'uuid', 'random') or d.startswith(('np.random', 'numpy.random', 'os.environ')):
+              bad.append(f'{d} in {q or "<module>"}')
+        walk(ch, q)
+    walk(tree, '')
+    if bad:
+      raise Unsupported('hidden input: ' + '; '.join(sorted(set(bad))[:4]))
+    return '(* no hash() / id() / time / uuid / random / os.environ in this module (checked) *)'
+  return emit
